@@ -283,24 +283,46 @@ where
     let shards = ctx.threads.max(1) as u64;
     let per = cases.div_ceil(shards).max(1);
     let mut results: Vec<(Stats, Option<Violation>)> = Vec::new();
-    std::thread::scope(|sc| {
-        let mut handles = Vec::new();
-        for shard in 0..shards {
-            let mk = &mk;
-            let f = &f;
-            let seed = ctx.sub_seed(check, shard);
-            let check = check.to_string();
-            handles.push(
-                std::thread::Builder::new()
-                    .stack_size(64 << 20)
-                    .spawn_scoped(sc, move || run_shard(seed, &check, per, mk, f))
-                    .expect("spawn"),
-            );
+    // The library logs through the `log` facade, whose macros evaluate their arguments only when the global maximum
+    // level admits the record: the first half of the cases runs with logging off (the default of a process that installs
+    // no logger), the second half with the maximum level at Trace, so that code whose behaviour depends on whether a log
+    // argument is evaluated is seen both ways.  The level is process-global, hence two phases and not a per-case choice.
+    for (phase, level) in [(0u64, log::LevelFilter::Off), (1u64, log::LevelFilter::Trace)] {
+        let n = if phase == 0 { per / 2 } else { per - per / 2 };
+        if n == 0 {
+            continue;
         }
-        for h in handles {
-            results.push(h.join().expect("shard thread panicked"));
+        if results.iter().any(|r| r.1.is_some()) {
+            break;
         }
-    });
+        log::set_max_level(level);
+        std::thread::scope(|sc| {
+            let mut handles = Vec::new();
+            for shard in 0..shards {
+                let mk = &mk;
+                let f = &f;
+                let seed = ctx.sub_seed(check, shard + 1000 * phase);
+                let check = check.to_string();
+                handles.push(
+                    std::thread::Builder::new()
+                        .stack_size(64 << 20)
+                        .spawn_scoped(sc, move || run_shard(seed, &check, n, mk, f))
+                        .expect("spawn"),
+                );
+            }
+            for h in handles {
+                let mut r = h.join().expect("shard thread panicked");
+                r.0.class(if phase == 0 { "log-level:off" } else { "log-level:trace" });
+                if let Some(v) = r.1.as_mut() {
+                    if phase == 1 {
+                        v.reason = format!("{} [with the log facade's maximum level at Trace]", v.reason);
+                    }
+                }
+                results.push(r);
+            }
+        });
+    }
+    log::set_max_level(log::LevelFilter::Off);
     let mut total = Stats::default();
     let mut viol = None;
     for (st, v) in results {
